@@ -130,6 +130,7 @@ func c11(tier string) []*explore.Scenario {
 			out = append(out, c11One(abandon{"caller-cancels", n, 0, false, false, false}, 64, 2, 1))
 		}
 	}
+	out = append(out, opInWriteAll("C11", 1)...)
 	return out
 }
 
